@@ -150,7 +150,7 @@ def run_mc(module, cfg, workers=8, timeout=1800, cache=True):
 def run_proofs(timeout=1500):
     """tlapm on spec/proofs (unbounded Level-A theorems).  Informational: a proof that does not go through
     says something about the specification or the provers, never about the code, so it cannot change a verdict."""
-    files = sorted(glob.glob(SPEC + '/proofs/*.tla')) + [SPEC + '/VfsTree.tla', SPEC + '/VfsPaths.tla']
+    files = sorted(glob.glob(SPEC + '/proofs/*.tla')) + [SPEC + '/VfsTree.tla', SPEC + '/VfsPaths.tla', SPEC + '/OverlayView.tla']
     key = file_hash(files)
     cf = WORK + '/proofs/' + key + '.json'
     os.makedirs(WORK + '/proofs', exist_ok=True)
@@ -160,7 +160,7 @@ def run_proofs(timeout=1500):
         return r
     t = time.time()
     res = {'modules': {}, 'cached': False}
-    for mod in ('PathLemmas', 'VfsTreeProofs'):
+    for mod in ('PathLemmas', 'VfsTreeProofs', 'OverlayProofs'):
         rc, out = sh('timeout %d tlapm --threads 8 --cache-dir %s/proofs/cache -I .. %s.tla 2>&1' % (timeout, WORK, mod), cwd=SPEC + '/proofs', timeout=timeout + 60)
         m = re.search(r'All (\d+) obligations? proved', out)
         f = re.search(r'(\d+)/(\d+) obligations failed', out)
@@ -168,7 +168,7 @@ def run_proofs(timeout=1500):
                                'obligations': int(m.group(1)) if m else (int(f.group(2)) if f else 0), 'ok': bool(m)}
     res['ok'] = all(v['ok'] for v in res['modules'].values())
     res['wall_s'] = round(time.time() - t, 1)
-    res['theorems'] = 'for ANY universe closed under Parent and ANY well-formed tree: every Level-A operation keeps the tree well-formed (ApplyWF, C03) and changes only its frame (FramePrimitives, FrameComposites, FailUnchanged, C01)'
+    res['theorems'] = 'for ANY universe closed under Parent and ANY well-formed tree: every Level-A operation keeps the tree well-formed (ApplyWF, C03) and changes only its frame (FramePrimitives, FrameComposites, FailUnchanged, C01); for ANY number and content of layers and ANY marker set the overlay view is well-formed (ViewWellFormedAlways), nothing is visible below an invisible path (NothingBelowInvisible), a successful remove_file/remove_dir hides the path whatever the lower layers hold (RemoveFileHides, RemoveDirHides) and a re-created directory starts empty (FreshAfterRecreate) - C03/C09/C10'
     if res['ok']:
         json.dump(res, open(cf, 'w'))
     return res
